@@ -5,7 +5,7 @@ import itertools
 import string
 
 from mc import dbe
-from mc.core import pmap, short_hash
+from mc.core import pmap, short_hash, run_tasks
 from props.deccommon import check_ast
 from ref import conj, decmodel
 
@@ -155,8 +155,7 @@ def run(ctx):
     ctx.log(f"{n_dbe} scenarios with <= {bound} deviations, {len(sweeps)} sweep files; each parsed with the switch on and off")
     items += sweeps
     ctx.rng.shuffle(items)
-    for r in pmap(work, [items[i:i + 20] for i in range(0, len(items), 20)], ctx.workers):
-        ctx.absorb(r)
+    run_tasks(ctx, work, [items[i:i + 20] for i in range(0, len(items), 20)])
     ctx.count(states=stats["nodes"] + len(sweeps), transitions=stats["choices"] + sum(len(a) for _o, _n, a in sweeps))
     ctx.part("dbe", scenarios=n_dbe, deviation_bound=bound, per_dimension_max=stats["per_dimension_max"])
     ctx.part("name-sweep", subjects=sum(1 for n in conj.EVT_NAME2ID if conj.kind(n) == "pair"), files=len(sweeps) - len(letters) - 1, complete=True)
